@@ -748,7 +748,7 @@ func ruleLPPipe(r *Run) {
 					k := innerKeep(call)
 					if !(k != nil && factHoldsOnEdge(ex[0], ex[1], k, false)) {
 						good = false
-						o.Fail(r.pos(ex[0].Instrs[len(ex[0].Instrs)-1].Pos()), "the loop is left early on a path where the stage kept the record")
+						o.Fail(r.pos(termPos(ex[0])), "the loop is left early on a path where the stage kept the record")
 					}
 				}
 			}
@@ -810,7 +810,7 @@ func ruleLPPipe(r *Run) {
 				}
 				if !isErrExit {
 					good = false
-					o.Fail(r.pos(ex[0].Instrs[len(ex[0].Instrs)-1].Pos()), "the build loop is left early on a non-error path")
+					o.Fail(r.pos(termPos(ex[0])), "the build loop is left early on a non-error path")
 				}
 			}
 		}
